@@ -15,7 +15,7 @@ prop("C07", ["T-CPP-FSM", "T-CPP-GUARD", "T-CPP-EVAL"])
 prop("C08", ["T-CPP-REGEX", "T-CPP-PARALLEL", "T-CPP-D"])
 prop("C06", ["T-LINEMAP", "T-ERR-SOURCE", "T-LOC-SIBLINGS", "T-OFFSET-LINE", "T-LOC-INDEX"])
 import rules_opt  # noqa
-prop("C02", ["T-OPT-PROT", "T-OPT-KILL", "T-OPT-BARRIER", "T-INLINE-COPY", "T-OPT-SIZE"])
+prop("C02", ["T-OPT-PROT", "T-OPT-KILL", "T-OPT-BARRIER", "T-OPT-PEEK", "T-INLINE-COPY", "T-OPT-SIZE"])
 prop("C14", ["T-INLINE-COPY", "T-INLINE-LABELS", "T-LABEL-KILL", "T-LABEL-UNIQUE"])
 prop("C18", ["T-CSLEEP", "T-DUMMY-ZP", "T-PROTECT-REGION", "T-OPT-PROT", "T-OPT-BARRIER", "T-FLAGS-DIRTY"])
 prop("C10", ["T-PREC", "T-CALC-OPS", "T-FOLD", "T-DIV-GUARD", "T-SIZEOF", "M-DIV-SITES"])
@@ -24,7 +24,7 @@ import rules_treewalk  # noqa
 prop("C16", ["T-TREEWALK", "T-PRATT-TOTAL", "T-TOKEN-DOMAIN", "T-ERR-UNWRAP", "T-LOC-INDEX", "T-VARIANT-FLOW", "T-DIV-GUARD", "T-INUSE-CLOSURE", "M-ERR-UNWRAP", "M-DIV-SITES"])
 import rules_misc  # noqa
 prop("C12", ["T-CALL-EMIT", "T-CALL-RECORD", "T-CALL-WRITERS", "T-INUSE-CLOSURE"])
-prop("C11", ["T-OPTION-CONFINE", "T-ASMLINE-SIBLINGS", "T-CPP-SCAN-SIBLINGS"])
+prop("C11", ["T-OPTION-CONFINE", "T-ASMLINE-SIBLINGS", "T-CPP-SCAN-SIBLINGS", "T-OPT-PEEK"])
 prop("C05", ["T-HASH-ITER", "T-ORDER-FRESH", "T-NONDET-API", "M-HASH-SITES", "M-NONDET"])
 prop("C15", ["T-CMPXFORM", "T-FLAGS-DIRTY", "T-LABEL-KILL"])
 import rules_flow  # noqa
